@@ -19,7 +19,11 @@ OidPositions == {"custom", "eku", "dntype", "othername"}
 OidShapes == {"oid-empty", "one-arc", "first-arc-3", "second-arc-40", "second-arc-39", "huge-arc", "arc2-limit", "arc2-below-limit", "arc2-half", "later-arc-max", "1k-arcs"}
 OidClassName(p, sh) == CASE sh = "oid-empty" -> p \o "-oid-empty" [] OTHER -> p \o "-oid-" \o sh
 OidClasses == { OidClassName(p, sh) : p \in OidPositions, sh \in OidShapes }
-HostileClasses == OidClasses \cup
+(* dates of a revoked entry: the revocation time and the invalidity date are checked one by one, whatever the other is *)
+TimeClassNames == {"year-minus-1", "year-minus-9999", "year-9999-offset-to-10000", "year-0-offset-to-minus-1", "year-9999", "year-0"}
+EntryShapes == {"revtime-with-valid-invalidity:", "revtime-without-invalidity:", "invalidity-with-valid-revtime:"}
+CrlEntryClasses == { sh \o tc : sh \in EntryShapes, tc \in TimeClassNames }
+HostileClasses == OidClasses \cup CrlEntryClasses \cup
   { "crldp-uri-non-ascii", "crldp-uri-nul", "crldp-uri-empty", "crldp-uri-64k",
     "nc-dns-non-ascii", "nc-rfc822-non-ascii", "nc-dns-empty", "nc-dns-64k",
     "idp-uri-non-ascii", "idp-uri-empty",
@@ -31,12 +35,12 @@ HostileClasses == OidClasses \cup
     "empty-everything" }
 (* which generation function a class applies to *)
 Applies(fn, cl) ==
-  CASE fn = "crl_signed_by" -> cl \in {"idp-uri-non-ascii", "idp-uri-empty", "year-minus-1", "year-minus-9999", "year-9999-offset-to-10000", "year-0-offset-to-minus-1",
+  CASE fn = "crl_signed_by" -> cl \in CrlEntryClasses \cup {"idp-uri-non-ascii", "idp-uri-empty", "year-minus-1", "year-minus-9999", "year-9999-offset-to-10000", "year-0-offset-to-minus-1",
                                         "year-9999", "year-0", "crlnumber-empty", "crlnumber-1m", "revoked-serial-1m", "serial-empty", "empty-everything"}
     [] fn = "serialize_request" -> cl \in OidClasses \cup {"attr-oid-empty", "attr-oid-one-arc", "attr-values-empty", "attr-values-malformed",
                                            "custom-content-empty", "custom-content-malformed", "dn-value-64k", "dn-64-attributes", "san-1k-entries",
                                            "printable-question-mark", "ku-duplicates", "empty-everything"}
-    [] OTHER -> cl \notin {"idp-uri-non-ascii", "idp-uri-empty", "crlnumber-empty", "crlnumber-1m", "revoked-serial-1m",
+    [] OTHER -> cl \notin CrlEntryClasses \cup {"idp-uri-non-ascii", "idp-uri-empty", "crlnumber-empty", "crlnumber-1m", "revoked-serial-1m",
                            "attr-oid-empty", "attr-oid-one-arc", "attr-values-empty", "attr-values-malformed"}
 GenCells == { <<fn, cl>> \in GenFns \X HostileClasses : Applies(fn, cl) }
 DocCells == DocumentedPanics
